@@ -16,6 +16,10 @@ use std::slice;
 use std::sync::atomic::Ordering;
 use std::sync::Mutex;
 
+#[cfg(kani)]
+#[path = "/verif/kani/h_vanilla.rs"]
+mod verif_kani;
+
 type ChanceIter<'a, 'b> = Zip<slice::Iter<'a, f64>, slice::Iter<'b, Node>>;
 
 // NOTE ideally this trait would define it's own iterator type, but without GAT we can't do that
